@@ -619,7 +619,7 @@ impl ExecutableContent for SendParameters {
             return false;
         }
 
-        let target_guard = target.lock().unwrap();
+        let target_guard = target.lock().unwrap().clone();
         if delay_ms > 0 && target_guard.to_string().eq(SCXML_TARGET_INTERNAL) {
             // Can't send via internal queue
             error!("Send: illegal delay for target {}", target_guard);
